@@ -39,6 +39,9 @@ pub enum Op {
     /// `cell.with_mut(|p| { write; x.store(val, ord); write })` (or `with` / read): the access lasts for the whole
     /// closure, also after the store another thread may acquire. For the oracles it is expanded into three operations.
     CellHold { c: u8, write: bool, loc: u8, val: u64, ord: Ord_ },
+    /// main only: the threads with index >= t are spawned here and not at the beginning (the spawn edge carries what
+    /// main did before this point)
+    SpawnFrom { t: u8 },
     /// atomic.with_mut (needs exclusive access: a non-atomic write of the atomic's memory)
     UnsyncLoad { loc: u8 },
 }
@@ -93,6 +96,7 @@ impl Op {
             Op::Fence { ord } => format!("fence({})", ord.s()),
             Op::Await { loc, ord, spin_hint, min, ann } => format!("r=await{}({}{},{}{})", if *spin_hint { "_spin" } else { "" }, l(loc), if *min <= 1 { "!=0".to_string() } else { format!(">={}", min) }, ord.s(), match ann { Some(w) => format!(";else {}.st(1,rlx)", l(w)), None => String::new() }),
             Op::CellRead { c } => format!("c{}.read", c),
+            Op::SpawnFrom { t } => format!("spawn(t{}..)", t),
             Op::CellHold { c, write, loc, val, ord } => format!("c{}.{}{{..; {}.st({},{}); ..}}", c, if *write { "with_mut" } else { "with" }, l(loc), val, ord.s()),
             Op::CellWrite { c } => format!("c{}.write", c),
             Op::UnsyncLoad { loc } => format!("r={}.unsync_load", l(loc)),
@@ -111,11 +115,18 @@ impl Op {
         matches!(self, Op::Load { .. } | Op::Swap { .. } | Op::Cas { .. } | Op::FetchAdd { .. } | Op::Await { .. })
     }
     pub fn is_mem(&self) -> bool {
-        !matches!(self, Op::Fence { .. } | Op::CellRead { .. } | Op::CellWrite { .. })
+        !matches!(self, Op::Fence { .. } | Op::CellRead { .. } | Op::CellWrite { .. } | Op::SpawnFrom { .. })
     }
 }
 
 impl Prog {
+    /// Index in main's operation list of the `SpawnFrom` that spawns thread u (None: spawned at the beginning)
+    pub fn spawn_pos(&self, u: usize) -> Option<usize> {
+        self.threads.first()?.iter().position(|o| matches!(o, Op::SpawnFrom { t } if (*t as usize) <= u && u >= 1))
+    }
+    pub fn staged(&self) -> bool {
+        self.threads.first().map_or(false, |m| m.iter().any(|o| matches!(o, Op::SpawnFrom { .. })))
+    }
     /// The program the oracles see: an access that lasts for a whole closure is an access before and one after what the
     /// closure does in between.
     pub fn expanded(&self) -> Prog {
@@ -381,6 +392,16 @@ pub fn classics() -> Vec<(String, Prog)> {
             out.push((format!("relseq-rmw-known[{},{}]", ro.s(), lo.s()), Prog { nlocs: 3, pre: vec![], threads: vec![vec![ld(2, Acq), ld(1, lo), ld(0, Rlx)], vec![st(0, 1, Rlx), st(1, 1, Rel)], vec![Op::FetchAdd { loc: 1, add: 1, ord: ro }, st(2, 1, Rel)]] }));
         }
     }
+    // a thread spawned AFTER its parent's release-class fence does not inherit that fence: its relaxed store publishes
+    // nothing (the reader was spawned before the parent wrote anything)
+    for &f1 in &[Rel, AcqRel, Sc] {
+        for &lo in &[Acq, Sc] {
+            out.push((format!("spawn-after-fence[{},{}]", f1.s(), lo.s()), Prog { nlocs: 2, pre: vec![], threads: vec![vec![st(1, 1, Rlx), f(f1), Op::SpawnFrom { t: 2 }], vec![ld(0, lo), ld(1, Rlx)], vec![st(0, 1, Rlx)]] }));
+            out.push((format!("spawn-after-fence-rmw[{},{}]", f1.s(), lo.s()), Prog { nlocs: 2, pre: vec![], threads: vec![vec![st(1, 1, Rlx), f(f1), Op::SpawnFrom { t: 2 }], vec![ld(0, lo), ld(1, Rlx)], vec![Op::FetchAdd { loc: 0, add: 1, ord: Rlx }]] }));
+        }
+    }
+    // the spawn edge itself: what the parent did before the spawn is visible to the child, later writes need not be
+    out.push(("spawn-edge".into(), Prog { nlocs: 2, pre: vec![], threads: vec![vec![st(0, 1, Rlx), Op::SpawnFrom { t: 1 }, st(1, 1, Rlx)], vec![ld(1, Rlx), ld(0, Rlx)]] }));
     // a store X becomes happens-before the reader between two reads of the same other store S: the next load must not go
     // back to X (the re-read of S orders X before S like the first read would have)
     for &so in &[Rel, Sc] {
@@ -504,6 +525,7 @@ fn exec(ops: &[Op], tid: u8, base_pc: u8, sh: &Shared, log: &Mutex<IterLog>) -> 
                 sh.cells.0[c as usize].with(|p| unsafe { std::ptr::read_volatile(p) });
                 u64::MAX
             }
+            Op::SpawnFrom { .. } => u64::MAX, // handled by `run` (main only)
             Op::CellWrite { c } => {
                 sh.cells.0[c as usize].with_mut(|p| unsafe { std::ptr::write_volatile(p, 1) });
                 u64::MAX
@@ -643,7 +665,11 @@ pub fn run(p: &Prog, cfg: &Cfg) -> RunResult {
                 loom::explore();
             }
             let mut hs = Vec::new();
+            let staged = p2.staged();
             for t in 1..p2.threads.len() {
+                if staged && p2.spawn_pos(t).is_some() {
+                    continue;
+                }
                 let (p3, s3, l3) = (p2.clone(), sh.clone(), log.clone());
                 hs.push(loom::thread::spawn(move || {
                     if ctrl == 5 && t == 1 {
@@ -675,6 +701,24 @@ pub fn run(p: &Prog, cfg: &Cfg) -> RunResult {
                 loom::stop_exploring();
                 out.extend(exec(&p2.threads[0][1..], 0, p2.pre.len() as u8 + 1, &sh, &log));
                 loom::explore();
+            } else if staged {
+                // main's operations one by one; the remaining threads are spawned where main says so. The results keep
+                // the usual order (main's, then every thread's by index): the late threads' handles are joined by index.
+                let mut late: Vec<(usize, loom::thread::JoinHandle<Vec<u64>>)> = Vec::new();
+                for (i, op) in p2.threads[0].iter().enumerate() {
+                    if let Op::SpawnFrom { .. } = op {
+                        for t in 1..p2.threads.len() {
+                            if p2.spawn_pos(t) == Some(i) {
+                                let (p3, s3, l3) = (p2.clone(), sh.clone(), log.clone());
+                                late.push((t, loom::thread::spawn(move || exec(&p3.threads[t], t as u8, 0, &s3, &l3))));
+                            }
+                        }
+                    } else {
+                        out.extend(exec(std::slice::from_ref(op), 0, (p2.pre.len() + i) as u8, &sh, &log));
+                    }
+                }
+                // early threads were pushed in index order and all have a smaller index than the late ones
+                hs.extend(late.into_iter().map(|(_, h)| h));
             } else {
                 out.extend(exec(&p2.threads[0], 0, p2.pre.len() as u8, &sh, &log));
             }
